@@ -588,3 +588,30 @@ package gtab
 //@     invariant forall g uint16 :: has(cov, g) ==> 0 <= cov[g] && cov[g] < len(adjust)
 //@     invariant forall k int :: 0 <= k && k < len(adjust) ==> adjust[k] != nil && ref(adjust[k]) != ref(cov) && forall y uint16 :: has(adjust[k], y) ==> adjust[k][y] != nil
 //@     invariant forall x uint16 :: forall y uint16 :: has(res, glyph.Pair{x, y}) ==> res[glyph.Pair{x, y}] != nil
+
+// Mark-to-base attachment (GPOS lookup type 4): a covered mark is attached to
+// the nearest preceding glyph that is in the base coverage table - only the
+// mark's placement offsets change, every other glyph, every advance and the
+// glyph ids are untouched, and the lookup continues after the mark.
+// advsum: the total advance of the glyphs lo..hi-1 (unbounded integer)
+//@ spec advsum(seq []glyph.Info, lo int, hi int) int = ite(hi <= lo, 0, advsum(seq, lo, hi - 1) + seq[hi-1].Advance)
+//@ func (l *Gpos4_1) apply(ctx *Context, a int, b int) (next int)   props: C06 C07
+//@   requires l != nil && ctx != nil && 0 <= a && a < b && b <= len(ctx.seq) && stackinv(ctx) && keepOK(ctx) && llOK(ctx)
+//@   requires forall g uint16 :: has(l.MarkCov, g) ==> 0 <= l.MarkCov[g] && l.MarkCov[g] < len(l.MarkArray)
+//@   requires forall g uint16 :: has(l.BaseCov, g) ==> 0 <= l.BaseCov[g] && l.BaseCov[g] < len(l.BaseArray)
+//@   requires forall i int :: 0 <= i && i < len(l.BaseArray) ==> forall k int :: 0 <= k && k < len(l.MarkArray) ==> l.MarkArray[k].Class < len(l.BaseArray[i])
+//@   ensures (next == -1 || next == a + 1) && stackinv(ctx) && len(ctx.seq) == old(len(ctx.seq)) && len(ctx.stack) == old(len(ctx.stack))
+//@   ensures !has(l.MarkCov, old(ctx.seq[a].GID)) ==> next == -1
+//@   ensures forall i int :: 0 <= i && i < len(ctx.seq) ==> ctx.seq[i].GID == old(ctx.seq[i].GID) && ctx.seq[i].Advance == old(ctx.seq[i].Advance)
+//@   ensures forall i int :: 0 <= i && i < len(ctx.seq) && (i != a || next == -1) ==> ctx.seq[i].XOffset == old(ctx.seq[i].XOffset) && ctx.seq[i].YOffset == old(ctx.seq[i].YOffset)
+//@   return_assert next >= 0 ==> 0 <= p && p < a && has(l.BaseCov, seq[p].GID) && forall q int :: p < q && q < a ==> !has(l.BaseCov, seq[q].GID)   // the nearest covered glyph before the mark
+//@   return_assert next >= 0 ==> seq[a].YOffset == int16(old(ctx.seq[a].YOffset) + int16(baseRecord.Y - markRecord.Y))
+//@   modifies ctx.seq[*]
+//@   loop 0
+//@     invariant -1 <= p && p < a && ref(seq) == ref(ctx.seq) && off(seq) == off(ctx.seq) && len(seq) == len(ctx.seq) && len(ctx.seq) == old(len(ctx.seq))
+//@     invariant forall q int :: p < q && q < a ==> !has(l.BaseCov, seq[q].GID)
+//@     decreases p + 1
+//@   loop 1
+//@     invariant p <= i && i <= a && 0 <= p && ref(seq) == ref(ctx.seq) && off(seq) == off(ctx.seq) && len(seq) == len(ctx.seq) && len(ctx.seq) == old(len(ctx.seq))
+//@     invariant dx == int16(baseRecord.X - markRecord.X - advsum(seq, p, i))
+//@     decreases a - i
